@@ -169,11 +169,11 @@ func docHasEscapedKeys(v any) bool {
 }
 
 type c17Result struct {
-	doc     any
-	isNil   bool
-	changed bool
-	err     error
-	wrapper sql.JSONWrapper
+	doc      any
+	isNil    bool
+	changed  bool
+	err      error
+	wrapper  sql.JSONWrapper
 	panicked string
 }
 
@@ -253,7 +253,7 @@ func c17Ops(c *rig.Ctx) {
 	lim := newLimiter(c, "c17.further_violations_same_key")
 	nDocs := c.Pick(260, 6000)
 	opsPerDoc := c.Pick(10, 18)
-	var indexed, fellBack, inMemByDesign, multiChunkOps, reindexed int
+	var indexed, fellBack, inMemByDesign, multiChunkOps, reindexed, refPanics int
 	for d := 0; d < nDocs; d++ {
 		r := c.SubRand("c17/doc", d)
 		g := &jgen{r: r, escKeys: r.Intn(3) == 0}
@@ -324,7 +324,12 @@ func c17Ops(c *rig.Ctx) {
 				lim.Violation(key+"/panic"+tail, "the stored JSON document panics on an operation the in-memory document answers: "+stRes.panicked, witness())
 				bad = true
 			case refRes.panicked != "":
-				rig.Must(fmt.Errorf("reference implementation panicked: %s", refRes.panicked))
+				// the reference itself crashed on this input: nothing to compare against (recorded, first few as notes)
+				c.Count("c17.reference_panicked", 1)
+				if refPanics++; refPanics <= 3 {
+					c.Note(fmt.Sprintf("reference (go-mysql-server JSONDocument) panicked: %s on %s(%s) doc=%s", refRes.panicked, op.kind, op.path, clipS(string(jMarshal(ref)))))
+				}
+				bad = true
 			case refRes.err != nil && stRes.err == nil:
 				// the reference's own path parser rejects some valid quoted legs; nothing to compare against
 				c.Count("c17.reference_error_only", 1)
@@ -416,4 +421,3 @@ func jParse(b []byte) (any, error) {
 	}
 	return v, nil
 }
-
